@@ -6,7 +6,7 @@ import hashlib, os, subprocess, sys, glob, concurrent.futures, shutil
 
 VERIF = os.path.dirname(os.path.dirname(os.path.abspath(__file__)))
 REPO = os.environ.get("CDNS_REPO", "/repo")
-BUILD = os.path.join(VERIF, "build")
+BUILD = os.environ.get("VERIF_BUILD_DIR", os.path.join(VERIF, "build"))
 
 FLAVOURS = {
     "asan": dict(cxx="g++", flags=["-O1", "-g", "-fsanitize=address,undefined", "-fno-sanitize=alignment",
